@@ -2085,7 +2085,16 @@ pub fn control_matrix_case(r: &mut Rng) -> (String, Doc) {
   let n1 = *r.pick(&["0", "1", "2", "3", "5", "7", "8", "9", "16", "63", "64", "65", "255", "256", "-1", "18446744073709551615"]);
   let n2 = *r.pick(&["0", "1", "2", "4", "5", "10", "64", "100"]);
   let fmt = *r.pick(&["%2s", "%3s", "%4s", "%6s", "%03s", "%3c", "%-4s|%4s", "%d", "%5d", "%-5d", "%05d", "%x", "%X", "%o", "%c", "%2c", "%s", "%5s", "%-5s", "%04s", "%10s", "%.2s", "%e", "%f", "%.3f", "%g", "%%", "%5%", "%", "%q", "%ld", "%*d", "%1$s", "%s %s", "%d-%s", "x%sy%dz", "%3s|%-3s|"]);
-  let (target, ctrl, controller): (String, &str, String) = match r.below(30) {
+  // the pattern controls get a larger share: their error paths echo the rejected text
+  let row = {
+    let k = r.below(34);
+    if k >= 30 {
+      5
+    } else {
+      k
+    }
+  };
+  let (target, ctrl, controller): (String, &str, String) = match row {
     0 => ("tstr".into(), ".size", n1.to_string()),
     1 => ("bstr".into(), ".size", format!("({}..{})", n2, n1)),
     2 => ("uint".into(), ".size", n2.to_string()),
@@ -2126,7 +2135,7 @@ pub fn control_matrix_case(r: &mut Rng) -> (String, Doc) {
   for _ in 0..r.range(1, 4) {
     vals.push(match r.below(6) {
       0 => Doc::Text((*r.pick(NONASCII_TEXTS)).to_string()),
-      1 | 2 => Doc::Text(if target == "tstr" && r.coin() { boundary_doc_text(r) } else { (*r.pick(NONASCII_TEXTS)).to_string() }),
+      1 | 2 => Doc::Text(if target == "tstr" && (r.coin() || row == 5) { boundary_doc_text(r) } else { (*r.pick(NONASCII_TEXTS)).to_string() }),
       3 => Doc::Int(*r.pick(&[0i128, 1, 5, 7, 9, 63, 64, 255, 256, -1, 18446744073709551615, -9223372036854775808])),
       4 => Doc::Bytes(match r.below(4) {
         0 => vec![],
